@@ -82,7 +82,7 @@ func Load(o LoadOpts) (*Prog, error) {
 	if o.GOARCH != "" {
 		env = append(env, "GOARCH="+o.GOARCH)
 	}
-	cfg := &packages.Config{Mode: packages.LoadAllSyntax, Dir: dir, Env: env, Tests: false}
+	cfg := &packages.Config{Mode: packages.LoadAllSyntax | packages.NeedEmbedFiles | packages.NeedEmbedPatterns, Dir: dir, Env: env, Tests: false}
 	pats := o.Extra
 	if len(pats) == 0 {
 		pats = []string{"./..."}
@@ -356,6 +356,24 @@ func (p *Prog) SrcFuncs(prefix string) []*ssa.Function {
 		}
 		return out[i].String() < out[j].String()
 	})
+	return out
+}
+
+// InitFuncs returns the synthetic package initialisers (package-level var initialisation) of
+// the packages with the given path prefix.
+func (p *Prog) InitFuncs(prefix string) []*ssa.Function {
+	var out []*ssa.Function
+	for path, sp := range p.SSAPkgs {
+		if strings.HasPrefix(path, prefix) {
+			if f := sp.Func("init"); f != nil && len(f.Blocks) > 0 {
+				out = append(out, f)
+				for _, a := range f.AnonFuncs {
+					out = append(out, a)
+				}
+			}
+		}
+	}
+	sort.Slice(out, func(i, j int) bool { return out[i].String() < out[j].String() })
 	return out
 }
 
